@@ -258,7 +258,8 @@ Definition iter_part_patterns (pat : str) : list (nat * nat * nat * list N) :=
             match assoc name PATTERN_PART_FIELDS with
             | None => (acc, used)   (* KeyError in Python; the generated tables make this unreachable *)
             | Some field =>
-                let gname := if mem_str field used then field ++ [95] ++ dec (N.of_nat (length used)) else field in
+                (* after fix 8892fa5 the suffix is the number of parts yielded so far (unique per occurrence) *)
+                let gname := if mem_str field used then field ++ [95] ++ dec (N.of_nat (length acc)) else field in
                 let named := [40; 63; 80; 60] ++ gname ++ [62] ++ ppat ++ [41] in
                 let used' := if mem_str field used then used else field :: used in
                 (acc ++ [(start, (start + length name)%nat, length name, named)], used')
